@@ -123,3 +123,55 @@ def gen_histories(rng, tier):
     for _ in range(40 if tier == "quick" else 400):
         hist.append([rng.choice(ALPHABET) for _ in range(rng.randint(4, 8))])
     return hist
+
+
+# ------------------------------------------------------------------ C07: the step limit of the grain growth model, every iteration
+def step_limit_relations(tier):
+    """GrainGrowthModel runs that extend and coarsen their grid with a non-zero dissolution threshold: at EVERY iteration the step the model
+    proposes equals maxBinRatio * class width / fastest growth rate among the occupied classes at or above the dissolution threshold of
+    the CURRENT grid (or the remaining time when nothing moves), classes stay non-negative.  Events for Relations.tla."""
+    from .kwn_drv import cmp3
+    ev = [{"e": "init"}]
+    info = {"regrids": 0, "iterations": 0}
+    try:
+        cases = [("euler 40/80", 40, 80, SolverType.EXPLICITEULER, 60.0), ("rk4 40/80", 40, 80, SolverType.RK4, 60.0), ("euler 20/80", 20, 80, SolverType.EXPLICITEULER, 60.0)]
+        if tier != "quick":
+            cases += [("euler 30/70 two calls", 30, 70, SolverType.EXPLICITEULER, 40.0), ("rk4 25/90", 25, 90, SolverType.RK4, 80.0)]
+        for label, minb, maxb, st, span in cases:
+            m = GrainGrowthModel(1e-7, 1e-5, bins=60, minBins=minb, maxBins=maxb, solverType=st)
+            m.setGrainBoundaryMobility(1e-12)
+            m.LoadDistributionFunction(lambda R: np.where(R > 6e-6, 1.0, 0.0))
+            rows = []
+            inner = m.getDt
+
+            def getDt(dXdt, m=m, inner=inner, rows=rows):
+                dt = inner(dXdt)
+                pbm = m.pbm
+                psd = pbm.PSD
+                growth = m.constrainedGrowth(m.grainGrowth(psd), m._z)
+                Dn = pbm.getDissolutionIndex(m.maxDissolution, 0)
+                rel_ = np.zeros(pbm.bins, dtype=bool)
+                rel_[Dn:] = psd[Dn:] > 0
+                gmax = float(np.amax(np.abs(growth[:-1][rel_]))) if np.any(rel_) else 0.0
+                width = float(pbm.PSDbounds[1] - pbm.PSDbounds[0])
+                remaining = float(m.finalTime - m.time[-1])
+                limit = remaining if gmax == 0 else pbm.maxRatio * width / gmax if hasattr(pbm, "maxRatio") else 0.4 * width / gmax
+                rows.append((int(pbm.bins), int(Dn), float(dt), float(limit), bool(np.all(psd >= 0))))
+                return dt
+            m.getDt = getDt
+            with contextlib.redirect_stdout(io.StringIO()):
+                m.solve(span, solverType=st)
+                if "two calls" in label:
+                    m.solve(span, solverType=st)
+            info["iterations"] += len(rows)
+            info["regrids"] += sum(1 for i in range(1, len(rows)) if rows[i][0] < rows[i - 1][0] and rows[i][1] > 0)
+            for k, (bins, Dn, dt, limit, nonneg) in enumerate(rows):
+                after = k > 0 and rows[k - 1][0] != bins
+                if after or k % 7 == 0 or dt > limit * (1 + 1e-9):
+                    ev.append({"e": "rel", "group": "C07:grain-step-limit=ratio*width/fastest-relevant-growth%s" % ("(iteration after a change of the size classes)" if after else ""),
+                               "name": "%s iteration %d (%d classes, threshold class %d)" % (label, k, bins, Dn), "c": cmp3(dt, limit, rtol=1e-9), "want": "le"})
+                if not nonneg:
+                    ev.append({"e": "rel", "group": "C07:grain-classes-non-negative", "name": "%s iteration %d" % (label, k), "c": "lt", "want": "eq"})
+    except Exception as ex:  # noqa
+        ev.append({"e": "exception", "msg": "%s: %s" % (type(ex).__name__, str(ex)[:200])})
+    return ev, info
